@@ -44,7 +44,8 @@ def required_cells(tier):
             "history:tensor-replaced": 2, "feed:buffer": 3,
             "feed:fortran": 3, "env:time-dependent": 3, "gauge": 10,
             "gauge:bond-dimension-1": 3, "bond-dimension-1": 5,
-            "record_all:False": 10}
+            "record_all:False": 10, "pt-lengths-differ": 4,
+            "drive-commensurate-with-half-step": 3}
 
 
 def cases(tier, seed):
@@ -147,7 +148,11 @@ def run_ancilla(case):
         if caps == "compute":
             cells.append("caps:compute")
     skind = "td" if i % 4 == 3 else "const"
-    sysd = scen.random_system(rng, d, skind)
+    commens = bool(skind == "td" and i % 8 == 7)
+    sysd = scen.random_system(rng, d, skind, n_lind=0 if commens else None,
+                              drive_period=dt / 2 if commens else None)
+    if commens:
+        cells.append("drive-commensurate-with-half-step")
     subdiv = None if (skind == "td" and i % 8 == 3) else 256
     hp = scen.halfprops(sysd, dt, start, subdiv)
     cells.append("system:" + skind)
@@ -182,6 +187,15 @@ def run_ancilla(case):
             newpts.append(oqupy.import_process_tensor(fn, via))
         pts = newpts
         cells.append("via-import:" + via)
+    # process tensors of different lengths in one list (the computation
+    # runs over the shortest one): the first environment gets a longer one
+    j0 = perm[0] if nenv else 0      # the one that comes FIRST in the list
+    if nenv >= 2 and via is None and i % 4 == 1 and not desc[j0]["gauge"] \
+            and desc[j0]["caps"] == "explicit" \
+            and not desc[j0]["transform"] and desc[j0]["kind"] != "rotdeph":
+        pts[j0] = ancilla.build_process_tensor(
+            envs[j0], nsteps + 2, dt=pts[j0].dt, rank3=desc[j0]["rank3"])
+        cells.append("pt-lengths-differ")
     lib_list = [pts[j] for j in perm]
     # sprinkle trivial process tensors / None
     if nenv == 0:
